@@ -70,3 +70,19 @@ package expressions
 //@   ensures imp(result == nil, old(tree.charPos) < tree.charPos && tree.charPos <= len(tree.expression))
 //@   loop 1 invariant 0 <= tree.charPos && old(tree.charPos) < tree.charPos
 //@   loop 1 decreases len(tree.expression) - tree.charPos
+
+//@ func (*ParserT).parseStatement [C20 C19]
+//@   check slice
+//@   requires tree != nil && tree.statement != nil
+
+// Variable tokens: a successfully parsed token is never empty (it starts with its sigil).
+// parseVarParenthesis / parseVarIndexElement: trusted (their results start with `$(` / `$name[`).
+//@ func (*ParserT).parseVarParenthesis [C20] trusted
+//@   ensures imp(result3 == nil, len(result) >= 1)
+//@ func (*ParserT).parseVarIndexElement [C20] trusted
+//@   ensures imp(result3 == nil, len(result) >= 1)
+//@ func (*ParserT).parseVarScalar [C20]
+//@   scope functional
+//@   check none
+//@   requires tree != nil
+//@   ensures imp(result3 == nil, len(result) >= 1)
